@@ -17,6 +17,10 @@ CFG = dict(
               "families), LLGR (families, times), prefix limits, export policy, cluster id, confederation id == the "
               "neighbour's configuration or what it inherits from its peer group (for overlapping dynamic prefixes: of "
               "some group whose prefix contains the address)",
+              "GR / LLGR helper: remote ends mirror the GR (restart time 1 s, N bit or not) and LLGR capabilities of the "
+              "session's OPEN, reach Established and end by RST, FIN, Cease NOTIFICATION, Hard-Reset NOTIFICATION, or are "
+              "told to close by the daemon (disable / delete / update); the clean-up clause is judged at the end of the "
+              "last connection whether or not that end starts helper mode",
               "dynamic clean-up: entry gone once the last connection's PeerSession::run task has finished; configured "
               "neighbours stay; peer table == configured neighbours at the end",
               "mirror: negotiate(L,R) vs negotiate(R,L) (raw, own-raw/peer-decoded, both decoded from real OPENs): same "
@@ -96,7 +100,14 @@ CFG = dict(
                          "update:field:prefix-limits": 50, "update:field:export-policy": 170,
                          "update:field:admin-state": 180, "update:refused:route-server-client": 70,
                          "update:refused:route-reflector-client": 65, "update-group:field:families": 55,
-                         "update-group:field:hold-time": 110, "update-group:field:graceful-restart": 45}),
+                         "update-group:field:hold-time": 110, "update-group:field:graceful-restart": 45,
+                         "drive:established-with-gr-or-llgr": 600, "cleanup:dynamic-checked:after-gr-helper-start": 230,
+                         "cleanup:dynamic-checked:gr-negotiated:tcp-reset": 180,
+                         "cleanup:dynamic-checked:gr-negotiated:tcp-close": 30,
+                         "cleanup:dynamic-checked:gr-negotiated:cease-notification": 30,
+                         "cleanup:dynamic-checked:gr-negotiated:hard-reset-notification": 15,
+                         "cleanup:dynamic-checked:gr-negotiated:told-by-the-daemon": 25,
+                         "end:tcp-close": 900, "end:cease-notification": 140, "end:hard-reset-notification": 70}),
     quick=[e2("accept", "event::verif::c16::run", 4, 120, part="seq"),
            e2("conc", "event::verif::c16::run", 2, 120, part="concurrent"),
            e1("mirror", "c16", "debug", 1, 120),
